@@ -8,8 +8,10 @@ Property theorems only.  **The claim is partial.**
 `Blue.Stall` is the transition system of the stall / wake-up protocol of lsmtk/src/tree/mod.rs
 (`apply_manifest_ingest` waits on `stall` while `should_stall_ingest`; `compaction_thread` waits on
 `compact` while `next_compaction()` is `None`; an installing ingest notifies `compact`, an applied
-compaction notifies `stall` and not `compact`), one event per critical section under the
-`compaction` mutex, any number of ingesters and compaction threads, spurious wake-ups included.
+compaction notifies `stall` and not `compact`; a compaction that fails is released from the
+`ongoing` list under the mutex and its thread replaced), one event per critical section under the
+`compaction` mutex, any number of ingesters and compaction threads, spurious wake-ups and failed
+compactions included.
 The selector's answer is part of the event (an observation of the run); what the protocol needs
 of it is `selOK` — the model's `Sel`: *no "nothing" while ingest is stalled and nothing is in
 flight*.  The recorded runs of the real store (real threads) are replayed through `step` by the
@@ -20,8 +22,9 @@ What is proved: deadlock freedom by invariant under `Sel` for every schedule
 (`writes_never_all_parked`), the enabledness and measure halves of "stalled ingest is eventually
 released" (`stalled_has_runner`, `stalled_select_takes`, `finish_shrinks`, `finish_wakes`), "the
 event that creates work wakes every sleeping compaction thread" (`ingest_wakes`), and that `Sel`
-is necessary (`deadlock_when_selector_starves`, D-15) as is the notification
-(`deadlock_without_ingest_notify`).  `Blue.Selector` models `next_compaction().is_some()` on the
+is necessary (`deadlock_when_selector_starves`, D-15) as are the notification
+(`deadlock_without_ingest_notify`) and the release of a failed compaction (`abort_releases`,
+`deadlock_when_abort_keeps_entry`).  `Blue.Selector` models `next_compaction().is_some()` on the
 tree metadata (compared with the real selector state by state) and gives `sel`, the
 characterisation of `Sel` on (|L0|, level-1 files under the hull, options): sound for the selector
 model up to one hypothesis (`sel_sound_partial`), it holds on every stalled tree within the file
@@ -46,7 +49,7 @@ theorem writes_never_all_parked_partial (s0 : St) (h0 : Inv s0) (evs : List Ev) 
 /-- a fresh store with at least one compaction thread satisfies the invariant, whatever the
     thresholds (the hypothesis of the theorem above is on the selector alone) -/
 theorem fresh_store_inv (stallAt stallBytes ni nc : Nat) :
-    Inv ⟨stallAt, stallBytes, 0, 0, List.replicate ni .running, List.replicate (nc + 1) .running, false, true⟩ :=
+    Inv ⟨stallAt, stallBytes, 0, 0, List.replicate ni .running, List.replicate (nc + 1) .running, false, true, 0, true⟩ :=
   inv_init stallAt stallBytes ni nc
 
 /-- the invariant along a run under `Sel` -/
@@ -81,7 +84,7 @@ theorem ingest_wakes {s : St} {i b : Nat} (hn : s.ingestNotifies = true)
 /-- **D-15 at model level**: one "nothing" on a stalled, idle tree and one ingester and one
     compaction thread put each other to sleep; the run obeys `Sel` up to that answer -/
 theorem deadlock_when_selector_starves :
-    let s0 : St := ⟨1, 1000, 0, 0, [.running], [.running], false, true⟩
+    let s0 : St := ⟨1, 1000, 0, 0, [.running], [.running], false, true, 0, true⟩
     let evs := [Ev.ingest 0 10, .select 0 false, .ingest 0 10]
     deadlocked (evs.foldl step s0) = true ∧ runSel s0 evs = false
       ∧ runSel s0 (evs.take 1) = true ∧ selOK (evs.take 1 |>.foldl step s0) (.select 0 false) = false :=
@@ -89,14 +92,37 @@ theorem deadlock_when_selector_starves :
 
 /-- the mutant without `compact.notify_all()` in ingest deadlocks although the selector obeys `Sel` -/
 theorem deadlock_without_ingest_notify :
-    let s0 : St := ⟨1, 1000, 0, 0, [.running], [.running], false, false⟩
+    let s0 : St := ⟨1, 1000, 0, 0, [.running], [.running], false, false, 0, true⟩
     let evs := [Ev.select 0 false, .ingest 0 10, .ingest 0 10]
     deadlocked (evs.foldl step s0) = true ∧ runSel s0 evs = true :=
   Blue.Stall.deadlock_without_ingest_notify
 
+/-- a compaction that fails is released: after `abort` (an event of `step` like any other, so
+    `writes_never_all_parked_partial` covers runs with failed compactions) the thread is back at
+    selection, the `ongoing` list has lost exactly the failed compaction and is empty if nothing
+    else is in flight; level 0 and the sleepers are untouched -/
+theorem abort_releases {s : St} {i : Nat} (h : Inv s) (hin : s.compactors[i]? = some .inflight) :
+    (step s (.abort i)).compactors[i]? = some .running
+      ∧ ongoing (step s (.abort i)) + 1 = ongoing s
+      ∧ ((∀ j, j ≠ i → s.compactors[j]? ≠ some .inflight) → idle (step s (.abort i)) = true)
+      ∧ (step s (.abort i)).l0 = s.l0 ∧ (step s (.abort i)).ingesters = s.ingesters :=
+  Blue.Stall.abort_releases h hin
+
+/-- the mutant whose error path keeps the failed compaction on the `ongoing` list deadlocks after
+    one failed compaction of level 0 although the selector obeys `Sel` throughout; the same
+    schedule on the store as written breaks `Sel` instead (its `ongoing` list is empty after the
+    abort, so "nothing" on the stalled tree is the selector's fault) -/
+theorem deadlock_when_abort_keeps_entry :
+    let s0 : St := ⟨1, 1000, 0, 0, [.running], [.running], false, true, 0, false⟩
+    let evs := [Ev.ingest 0 10, .select 0 true, .abort 0, .select 0 false, .ingest 0 10]
+    deadlocked (evs.foldl step s0) = true ∧ runSel s0 evs = true ∧ ongoing (evs.foldl step s0) = 1
+      ∧ (let s1 : St := ⟨1, 1000, 0, 0, [.running], [.running], false, true, 0, true⟩
+         runSel s1 evs = false ∧ ongoing ((evs.take 3).foldl step s1) = 0) :=
+  Blue.Stall.deadlock_when_abort_keeps_entry
+
 /-- as-is (O-4): a compaction thread sleeps on while the finisher selects the next compaction -/
 theorem sleeper_with_work :
-    let s0 : St := ⟨5, 1000, 0, 0, [.running], [.running, .running], false, true⟩
+    let s0 : St := ⟨5, 1000, 0, 0, [.running], [.running, .running], false, true, 0, true⟩
     let evs := [Ev.ingest 0 10, .ingest 0 10, .ingest 0 10, .select 0 true, .select 1 false, .finish 0 1 10]
     let s := evs.foldl step s0
     s.compactors = [.running, .waiting] ∧ s.quiet = false ∧ runSel s0 (evs ++ [.select 0 true]) = true
@@ -159,7 +185,7 @@ theorem default_sel_upto_52 (l0b l1h l1hb : Nat) (full : Bool) (h : l1h ≤ 52) 
     third parks, the compaction thread (woken by the first ingest) compacts, the parked ingest is
     woken and installs; the invariant's executable form holds at the end -/
 example :
-    let s0 : St := ⟨2, 1000, 0, 0, [.running], [.running], false, true⟩
+    let s0 : St := ⟨2, 1000, 0, 0, [.running], [.running], false, true, 0, true⟩
     let evs := [Ev.select 0 false, .ingest 0 10, .ingest 0 10, .ingest 0 10, .select 0 true, .finish 0 2 20, .ingest 0 10, .select 0 true]
     runSel s0 evs = true ∧ deadlocked (evs.foldl step s0) = false ∧ invB (evs.foldl step s0) = true
       ∧ (evs.take 4 |>.foldl step s0).ingesters = [.waiting] ∧ (evs.foldl step s0).l0 = 1 := by decide
@@ -167,12 +193,22 @@ example :
 /-- `stalled_has_runner` / `stalled_select_takes` have inhabitants: in the state after the third
     ingest above an ingester is parked and the compaction thread is awake -/
 example :
-    let s : St := ⟨2, 1000, 2, 20, [.waiting], [.running], false, true⟩
+    let s : St := ⟨2, 1000, 2, 20, [.waiting], [.running], false, true, 0, true⟩
     (∃ t ∈ s.ingesters, t = .waiting) ∧ idle s = true ∧ selOK s (.select 0 true) = true
       ∧ selOK s (.select 0 false) = false := by decide
 
+/-- a run under `Sel` with a failed compaction: level 0 at the threshold, the ingester parked, the
+    selected compaction fails and is released, the (fresh) thread selects again, is served, and the
+    parked ingest is released -/
+example :
+    let s0 : St := ⟨1, 1000, 0, 0, [.running], [.running], false, true, 0, true⟩
+    let evs := [Ev.ingest 0 10, .ingest 0 10, .select 0 true, .abort 0, .select 0 true, .finish 0 1 10, .ingest 0 10]
+    runSel s0 evs = true ∧ invB (evs.foldl step s0) = true ∧ deadlocked (evs.foldl step s0) = false
+      ∧ ongoing ((evs.take 4).foldl step s0) = 0 ∧ ((evs.take 4).foldl step s0).ingesters = [.waiting]
+      ∧ (evs.foldl step s0).ingesters = [.running] := by decide
+
 /-- `finish_shrinks`: an in-flight compactor and a non-empty level 0 -/
-example : (step (⟨2, 1000, 2, 20, [.waiting], [.inflight], false, true⟩ : St) (.finish 0 2 20)).l0 = 0 := by decide
+example : (step (⟨2, 1000, 2, 20, [.waiting], [.inflight], false, true, 0, true⟩ : St) (.finish 0 2 20)).l0 = 0 := by decide
 
 /-- `sel` on both sides of the file limit: 4 level-0 files with 4 resp. 5 level-1 files under the
     hull, 8 files per compaction -/
@@ -203,6 +239,8 @@ end Blue.Props.C20
 #print axioms Blue.Props.C20.deadlock_when_selector_starves
 #print axioms Blue.Props.C20.deadlock_without_ingest_notify
 #print axioms Blue.Props.C20.sleeper_with_work
+#print axioms Blue.Props.C20.abort_releases
+#print axioms Blue.Props.C20.deadlock_when_abort_keeps_entry
 #print axioms Blue.Props.C20.selOK_of_sel
 #print axioms Blue.Props.C20.sel_iff
 #print axioms Blue.Props.C20.sel_sound_partial
